@@ -1,4 +1,91 @@
+From Coq Require Import ZArith List.
 From PV Require Import C09.C09_Proofs.
-Theorem chan_exactly_once_unbuffered_refuted_witness : f10_witness_stmt.
-Proof. exact f10_witness. Qed.
-Print Assumptions chan_exactly_once_unbuffered_refuted_witness.
+
+(* F10 (unbuffered channel as it is): exactly-once and release are refuted *)
+Theorem chan_exactly_once_unbuffered_refuted : C09_Witness.chan_exactly_once_unbuffered_refuted_stmt.
+Proof. exact C09_Witness.chan_exactly_once_unbuffered_refuted. Qed.
+Print Assumptions chan_exactly_once_unbuffered_refuted.
+Theorem chan_release_unbuffered_refuted : C09_Witness.chan_release_unbuffered_refuted_stmt.
+Proof. exact C09_Witness.chan_release_unbuffered_refuted. Qed.
+Print Assumptions chan_release_unbuffered_refuted.
+(* F11 (buffered channel): release is refuted across vCPUs *)
+Theorem chan_release_buffered_refuted : C09_Witness.chan_release_buffered_refuted_stmt.
+Proof. exact C09_Witness.chan_release_buffered_refuted. Qed.
+Print Assumptions chan_release_buffered_refuted.
+
+(* unbuffered channel, repaired code: every schedule *)
+Theorem chan_exactly_once_unbuffered :
+  forall progs now0 s, C09_UnbufProofs.ureach true progs now0 s ->
+    NoDup (C09_Unbuf.u_taken s ++ C09_Common.opt_list (C09_Unbuf.u_slot s)) /\
+    (forall v, C09_UnbufProofs.u_send_ret s C09_Common.KSend v C09_Common.ROk -> In v (C09_Unbuf.u_taken s)) /\
+    (forall v, C09_UnbufProofs.u_send_ret s C09_Common.KTrySend v C09_Common.ROk ->
+               In v (C09_Unbuf.u_taken s ++ C09_Common.opt_list (C09_Unbuf.u_slot s))) /\
+    C09_BufProofs.recv_vals (C09_Unbuf.u_log s) = rev (C09_Unbuf.u_taken s).
+Proof. exact C09_UnbufProofs.unbuf_exactly_once. Qed.
+Print Assumptions chan_exactly_once_unbuffered.
+Theorem chan_timeout_not_delivered_unbuffered :
+  forall progs now0 s k v r, C09_UnbufProofs.ureach true progs now0 s -> C09_BufProofs.is_sendk k = true ->
+    C09_UnbufProofs.u_send_ret s k v r -> r = C09_Common.RTimeout \/ r = C09_Common.RNo ->
+    ~ In v (C09_Unbuf.u_taken s) /\ C09_Unbuf.u_slot s <> Some v.
+Proof. exact C09_UnbufProofs.unbuf_timeout_not_delivered. Qed.
+Print Assumptions chan_timeout_not_delivered_unbuffered.
+Theorem chan_no_invention_unbuffered :
+  forall progs now0 s v, C09_UnbufProofs.ureach true progs now0 s ->
+    In v (C09_Unbuf.u_taken s ++ C09_Common.opt_list (C09_Unbuf.u_slot s)) -> C09_UnbufProofs.u_offered s v.
+Proof. exact C09_UnbufProofs.unbuf_no_invention. Qed.
+Print Assumptions chan_no_invention_unbuffered.
+Theorem chan_fifo_per_sender_unbuffered :
+  forall progs now0 s, C09_UnbufProofs.ureach true progs now0 s ->
+    C09_BufProofs.sender_sorted (C09_Unbuf.u_taken s ++ C09_Common.opt_list (C09_Unbuf.u_slot s)).
+Proof. exact C09_UnbufProofs.unbuf_fifo. Qed.
+Print Assumptions chan_fifo_per_sender_unbuffered.
+Theorem chan_false_closed_only_after_close_unbuffered :
+  forall progs now0 s e, C09_UnbufProofs.ureach true progs now0 s -> In e (C09_Unbuf.u_log s) ->
+    C09_Common.e_r e = C09_Common.RClosed -> C09_Unbuf.u_closed s = true.
+Proof. exact C09_UnbufProofs.unbuf_closed_reason. Qed.
+Print Assumptions chan_false_closed_only_after_close_unbuffered.
+Theorem chan_unbuffered_footprint_protected :
+  forall progs now0 s t, C09_UnbufProofs.ureach true progs now0 s ->
+    (C09_UnbufProofs.holds (C09_Unbuf.u_pc s t) = true <-> C09_Unbuf.u_mtx s = Some t).
+Proof. exact C09_UnbufProofs.unbuf_footprint_protected. Qed.
+Print Assumptions chan_unbuffered_footprint_protected.
+
+(* buffered channel (code as it is): every schedule, every capacity *)
+Theorem chan_exactly_once_buffered :
+  forall mcap progs now0 s, C09_BufProofs.breach mcap progs now0 s ->
+    NoDup (C09_Buf.b_popped s ++ map fst (C09_Buf.b_q s)) /\
+    (forall v, C09_BufProofs.b_send_ret s v C09_Common.ROk -> In v (C09_Buf.b_popped s ++ map fst (C09_Buf.b_q s))) /\
+    NoDup (C09_BufProofs.recv_vals (C09_Buf.b_log s)) /\
+    (forall v, In v (C09_BufProofs.recv_vals (C09_Buf.b_log s)) -> In v (C09_Buf.b_popped s)) /\
+    (forall v, In v (C09_Buf.b_popped s) -> In v (C09_BufProofs.recv_vals (C09_Buf.b_log s)) \/ C09_BufProofs.b_in_hand s v) /\
+    (forall v, C09_BufProofs.b_in_hand s v -> In v (C09_Buf.b_popped s) /\ ~ In v (C09_BufProofs.recv_vals (C09_Buf.b_log s))).
+Proof. exact C09_BufProofs.buf_exactly_once. Qed.
+Print Assumptions chan_exactly_once_buffered.
+Theorem chan_false_not_delivered_buffered :
+  forall mcap progs now0 s v r, C09_BufProofs.breach mcap progs now0 s -> C09_BufProofs.b_send_ret s v r -> r <> C09_Common.ROk ->
+    ~ In v (C09_Buf.b_pushed s) /\ ~ In v (C09_Buf.b_popped s) /\ ~ In v (C09_BufProofs.recv_vals (C09_Buf.b_log s)).
+Proof. exact C09_BufProofs.buf_false_not_delivered. Qed.
+Print Assumptions chan_false_not_delivered_buffered.
+Theorem chan_no_invention_buffered :
+  forall mcap progs now0 s v, C09_BufProofs.breach mcap progs now0 s ->
+    In v (C09_BufProofs.recv_vals (C09_Buf.b_log s)) \/ In v (C09_Buf.b_popped s) ->
+    C09_BufProofs.b_offered s v /\ In v (C09_Buf.b_pushed s).
+Proof. exact C09_BufProofs.buf_no_invention. Qed.
+Print Assumptions chan_no_invention_buffered.
+Theorem chan_fifo_per_sender_buffered :
+  forall mcap progs now0 s, C09_BufProofs.breach mcap progs now0 s ->
+    C09_Buf.b_pushed s = C09_Buf.b_popped s ++ map fst (C09_Buf.b_q s) /\
+    C09_BufProofs.sender_sorted (C09_Buf.b_pushed s) /\ C09_BufProofs.sender_sorted (C09_Buf.b_popped s).
+Proof. exact C09_BufProofs.buf_fifo. Qed.
+Print Assumptions chan_fifo_per_sender_buffered.
+Theorem chan_false_closed_only_after_close_buffered :
+  forall mcap progs now0 s e, C09_BufProofs.breach mcap progs now0 s -> In e (C09_Buf.b_log s) ->
+    C09_Common.e_r e = C09_Common.RClosed -> C09_Buf.b_closed s = true.
+Proof. exact C09_BufProofs.buf_closed_reason. Qed.
+Print Assumptions chan_false_closed_only_after_close_buffered.
+Theorem chan_drain_after_close :
+  forall mcap progs now0 s e, C09_BufProofs.breach mcap progs now0 s -> In e (C09_Buf.b_log s) ->
+    C09_Common.e_k e = C09_Common.KRecv -> C09_Common.e_r e = C09_Common.RClosed ->
+    firstn (C09_Common.e_aux e) (C09_Buf.b_pushed s) = firstn (C09_Common.e_aux e) (C09_Buf.b_popped s).
+Proof. exact C09_BufProofs.buf_drain_after_close. Qed.
+Print Assumptions chan_drain_after_close.
